@@ -594,14 +594,22 @@ func C03() int {
 	c03Sweeps(r, stats, deadline) // the long programs first
 	c03Histories(r, stats, deadline)
 	c03RunAll(r, stats, deadline)
+	xd, xn, ok := crossRun(r, 3, deadline)
+	if !ok {
+		return 2
+	}
 	r.Set("states", len(stats.states))
 	r.Set("transitions", stats.transitions)
 	r.Set("traces_validated_against_impl", stats.validated)
-	r.Set("evaluations", stats.validated+stats.undef+r.Violations())
-	r.Set("distinct_nontrivial", stats.distinct.Len())
+	r.Set("evaluations", stats.validated+stats.undef+r.Violations()+xd)
+	r.Set("distinct_nontrivial", stats.distinct.Len()+xn)
 	r.Set("skipped_undefined", stats.undef)
-	r.Set("exhaustive", !stats.capped)
-	r.Set("rule", "explicit-state search over the abstract heap of two slice variables (alias relation + contents) for []int, []string, []bool: every operation sequence up to the all-paths depth, then breadth-first search with state merging up to the BFS depth; every history (shortest path + operation) is replayed as a TypeShell program on the real transpiler + bash with len and all elements of both variables printed after every step, and compared with the reference interpreter. states = distinct abstract heaps reached, transitions = operation applications, traces_validated_against_impl = programs whose real run agreed with the model. Plus index sweeps: for every string length 0..L all in-range (a,b) pairs for s[a:b], s[:b], s[a:], s[:], s[i], len, +, ==, !=, range; slice growth element by element with read-back.")
+	if stats.capped {
+		r.Set("exhaustive", false)
+	} else if _, set := r.Cov["exhaustive"]; !set {
+		r.Set("exhaustive", true)
+	}
+	r.Set("rule", "explicit-state search over the abstract heap of two slice variables (alias relation + contents) for []int, []string, []bool: every operation sequence up to the all-paths depth, then breadth-first search with state merging up to the BFS depth; every history (shortest path + operation) is replayed as a TypeShell program on the real transpiler + bash with len and all elements of both variables printed after every step, and compared with the reference interpreter. states = distinct abstract heaps reached, transitions = operation applications, traces_validated_against_impl = programs whose real run agreed with the model. Plus index sweeps: for every string length 0..L all in-range (a,b) pairs for s[a:b], s[:b], s[a:], s[:], s[i], len, +, ==, !=, range; slice growth element by element with read-back. Plus the slice/string share of the cross-feature space (cross.go): slice and string statements crossed with every other statement kind and every context.")
 	r.Assumef("state merging assumes two histories reaching the same abstract heap have the same futures in the implementation; the all-paths tier does not rely on it")
 	return finish(r)
 }
